@@ -195,10 +195,11 @@ func ReadStringList(r Reader, s *[]string) error {
 	default:
 		return ErrInvalidType
 	}
-	if s == nil || len(*s) < l {
-		*s = make([]string, l)
-	}
 	for x := 0; x < l; x++ {
+		if x >= len(*s) {
+			// Grow with the entries that are present, the count itself is not trusted.
+			*s = append(*s, "")
+		}
 		if err := r.ReadString(&(*s)[x]); err != nil {
 			return err
 		}
